@@ -302,10 +302,19 @@ def check_quantile_coverage(ctx):
     m = c.module
     site = c.qual + ".compute_single"
     f = c.methods["compute_single"]
-    outs = [o for o in symeval.Evaluator(m).run(f) if o.kind == "return"]
-    ctx.need(len(outs) >= 6, "%s: expected >= 6 return paths" % site)
+    # by cases: the closedness flags of the interval are fixed to each combination (however the code selects the comparison:
+    # nested ifs, operator.le / operator.lt, ...); the paths that remain differ only in which end is infinite
+    outs = []
+    for lflag in (False, True):
+        for uflag in (False, True):
+            evq = symeval.Evaluator(m)
+            for o in evq.run(f, env={"interval.lower_eq": Rat.const(1 if lflag else 0), "interval.upper_eq": Rat.const(1 if uflag else 0)}):
+                if o.kind == "return":
+                    o.case_flags = {"l": lflag, "u": uflag}
+                    outs.append(o)
+    ctx.need(len(outs) >= 8, "%s: expected return paths for every combination of closed/open ends" % site)
     for o in outs:
-        flags = {}
+        flags = dict(o.case_flags)
         inf_lower = inf_upper = None
         for cnd, pol in o.conds:
             k = cnd.key()
